@@ -26,6 +26,7 @@ BOUNDS = {
     "length prefix": "all body lengths < 2^32",
     "varint payload": "bit lengths 0..136 (quick: 56..72 here, the full range in C01) / 0..520 (thorough)",
     "identifier": "name and <= 3 (type, name) pairs of unbounded strings; 32 arbitrary digest bytes",
+    "sequences": "K = 3 (quick) / 4 (thorough) records in one stream over 17 record kinds (C03's two universes), decoded by the reference codec",
     "trees": "carrier values all ints in msgpack's native range / None, n <= 3 declared fields, 0..3 extra reserved values, version present or absent",
 }
 STUBS = ["tree-level msgpack (vf/models/msgtree.py)", "sha256 is uninterpreted in the identifier query (32 arbitrary digest bytes)"]
@@ -353,6 +354,79 @@ def end_to_end(ignore: bool = False):
     return {"ok": ok, "detail": f"{len(recs)} records impl->reference, {len(exp)} records reference->impl" if ok else f"implementation decodes the reference stream to {seen}", "cex": {"direction": "ref->impl"}}
 
 
+def _want(rec, created_as=None):
+    from flow.record import GroupedRecord
+
+    if isinstance(rec, GroupedRecord):
+        return ("grouped", rec.name, tuple(_want(m) for m in rec.records))
+    p = _plain(rec)
+    if created_as is not None:
+        p = (p[0], created_as) + tuple(p[2:])
+    return p
+
+
+def seq_problem(kinds):
+    """One stream holding the given sequence of record kinds (C03's two universes): the independent reference decoder must accept it
+    (every identifier announced by an earlier descriptor frame with the published hash) and decode exactly the records written."""
+    from flow.record.stream import RecordStreamWriter
+    from harness import C03
+
+    U = [(f, None, False) for f in C03.universe()] + [(f, C03.CREATED_AS.get(("aux", i)), ("aux", i) in C03.FAILING) for i, f in enumerate(C03.universe("aux"))]
+    buf = io.BytesIO()
+    w = RecordStreamWriter(buf)
+    want = []
+    for i in kinds:
+        make, created_as, failing = U[i]
+        rec = make()
+        if failing:
+            try:
+                w.write(rec)
+            except Exception:  # noqa: BLE001
+                continue
+            return "writing a record with an unserialisable value did not raise"
+        w.write(rec)
+        want.append(_want(rec, created_as))
+    w.flush()
+    data = buf.getvalue()
+    w.fp = None
+    try:
+        frames = wire.decode_stream(data)
+        wire.check_conformance(frames)
+    except Exception as e:  # noqa: BLE001
+        return f"reference decoder rejects the written stream: {type(e).__name__}: {e}"
+    got = [f for f in frames if f[0] != "descriptor"]
+    if got != want:
+        for g, x in zip(got, want):
+            if g != x:
+                return f"reference decoder reads {g!r}, written {x!r}"[:500]
+        return f"{len(got)} records decoded by the reference, {len(want)} written"
+    return None
+
+
+NSEQ = 17
+
+
+def seq_ref(k: int, first: int):
+    from crosshair.tracers import NoTracing
+
+    def check(c1: int, c2: int, c3: int) -> bool:
+        """
+        post: _
+        """
+        codes = [c1, c2, c3][: k - 1]
+        if not all(0 <= c < NSEQ for c in codes):
+            return True
+        kinds = [first]
+        for c in codes:
+            for j in range(NSEQ):
+                if c == j:
+                    kinds.append(j)
+        with NoTracing():
+            return seq_problem(kinds) is None
+
+    return check
+
+
 def obligations(tier, seed):
     obs = [ob("side/constants", "side", "constants", {}), ob("side/end-to-end-bytes", "side", "end_to_end", {}), ob("side/end-to-end-bytes-ignore-config", "side", "end_to_end", {"ignore": True})]
     obs.append(ob("O1-length-prefix", "smt", "length_prefix", {}, timeout=60, bounds="all n < 2^32"))
@@ -374,6 +448,9 @@ def obligations(tier, seed):
     obs.append(ob("side/tree-datetime", "side", "tree_datetime", {}))
     for k in ("descriptor", "grouped", "bigint"):
         obs.append(ob(f"O4-tree/{k}", "xh", "tree_other", {"kind": k}, timeout=to, group="O4-tree"))
+    k = 3 if tier == "quick" else 4
+    for first in range(NSEQ):
+        obs.append(ob(f"O6-sequences/K{k}/first{first}", "xh", "seq_ref", {"k": k, "first": first}, timeout=to * 2, group="O6-sequences", bounds=f"{k} records x {NSEQ} kinds in one stream, decoded by the reference codec"))
     for n in (0, 2, 3):
         obs.append(ob(f"O5-compat/{n}fields", "xh", "compat", {"nfields": n}, timeout=to * 2, group="O5-compat", bounds="0..3 extra reserved values (int / text / None first), version present or absent"))
     return obs
@@ -381,6 +458,13 @@ def obligations(tier, seed):
 
 def replay(res):
     gid = res["id"]
+    if "O6-sequences" in gid:
+        from harness.common import cex_args
+
+        v = cex_args(res, ["c1", "c2", "c3"])
+        kinds = [res["args"]["first"]] + [c for c in [v.get("c1"), v.get("c2"), v.get("c3")][: res["args"]["k"] - 1] if isinstance(c, int) and 0 <= c < NSEQ]
+        prob = seq_problem(kinds)
+        return {"reproduced": prob is not None, "key": f"C02/sequence/{kinds}", "what": f"stream holding the record kinds {kinds}: {prob}"[:700], "input": {"kinds": kinds}}
     if "side/constants" in gid:
         out = constants()
         return {"reproduced": not out["ok"], "key": "C02/constants", "what": out["detail"], "input": {}}
